@@ -348,10 +348,16 @@ namespace foonathan
                 if (auto remaining = std::size_t(block_end() - stack_.top()))
                 {
                     auto offset = detail::align_offset(stack_.top(), detail::max_alignment);
-                    if (offset < remaining)
+                    auto mem    = stack_.top();
+                    // the rest of the block is used up, whether or not the pool can take it:
+                    // it must not be handed out a second time by the stack
+                    stack_.bump(remaining);
+                    if (offset < remaining
+                        && remaining - offset
+                               >= pool_type::type::min_block_size(pool.node_size(), 1))
                     {
-                        detail::debug_fill(stack_.top(), offset, debug_magic::alignment_memory);
-                        pool.insert(stack_.top() + offset, remaining - offset);
+                        detail::debug_fill(mem, offset, debug_magic::alignment_memory);
+                        pool.insert(mem + offset, remaining - offset);
                         return true;
                     }
                 }
